@@ -4,3 +4,5 @@ open Biogo.Properties.C11
 #print axioms history_key_observation
 #print axioms spec_cycle_values
 #print axioms spec_cycle_sorted_perm
+#print axioms run_rejects
+#print axioms history_rejected_push_noop
